@@ -219,7 +219,7 @@ func taskBody(env *taskEnv, t *TaskScn) func() string {
 		return func() string {
 			me := curTask()
 			st := &env.walkStates[me]
-			*st = sharedWalkState{tape: tapeReader{tape: t.Walk.Tape}}
+			*st = sharedWalkState{tape: tapeReader{tape: t.Walk.Tape, skip: t.Walk.TapeSkip}}
 			if len(env.shared) > 0 {
 				st.root = env.shared[t.Walk.Block%len(env.shared)].AsNode()
 			}
